@@ -50,6 +50,9 @@ def use_repo() -> None:
         raise WrongCopy(execnet.__file__)
 
 
+SIGINT_LOG: list = []
+
+
 class WrongCopy(Exception):
     pass
 
@@ -158,6 +161,10 @@ def _shard_main(argv: list[str]) -> int:
     with open(specfile) as f:
         spec = json.load(f)
     try:
+        import signal
+
+        # in-process worker gateways escalate to SIGINT when execution does not end; record, don't die
+        signal.signal(signal.SIGINT, lambda s, f: SIGINT_LOG.append(time.monotonic()))
         use_repo()
         mod = __import__("monitors." + modname, fromlist=["x"])
         res = mod.run_shard(spec)
